@@ -1784,7 +1784,7 @@ func sortInts(xs []int) { sort.Ints(xs) }
 func runC13(a runArgs) error {
 	e := NewEmitter("C13", "Conn.Run")
 	e.ShardSize = 40
-	e.Rule = "A case is one history of exchange-level operations on a back-to-back pair of real udp/client.Conn (plain, block-wise up/down, observe + notifications + cancel, ping, one-way; ending by success, silence+cancel, deadline, reset, malformed block, duplicate token, queued in the limiter then cancelled; duplicates per direction), all 11 table sizes of both connections read after every operation, after cancelling what still hangs, and after ageing + MAX_RETRANSMIT+1 far ticks. distinct = distinct descriptor; non-trivial = at least one operation that does not end by plain success (nest = a copy of a request contending for the per-ID lock counts). Sweep: one pkg/cache.Cache swept once; non-trivial = some but not all entries expired, or more than 32. Locks: a Lock/TryLock/Unlock script on one real MutexMap, entries + reference counts + goroutine states after every call; non-trivial = some call finds its key taken. MidRace: exchanges with message-ID continuations on one real connection, housekeeping ticks, one of them interrupted between Range's fetch and the callback with exchanges ending/starting there; non-trivial = contains an interrupted tick."
+	e.Rule = "A case is one history of exchange-level operations on a back-to-back pair of real udp/client.Conn (plain, block-wise up/down, observe + notifications + cancel, ping, one-way; ending by success, silence+cancel, deadline, reset, malformed block, duplicate token, queued in the limiter then cancelled -- also held between the select of acquireEndpoint and cancelEndpoint while a finishing request hands its slot over; Cancel of an observation whose deregistration exchange fails; duplicates per direction), all 11 table sizes of both connections read after every operation, after cancelling what still hangs, and after ageing + MAX_RETRANSMIT+1 far ticks. distinct = distinct descriptor; non-trivial = at least one operation that does not end by plain success (nest = a copy of a request contending for the per-ID lock counts). Sweep: one pkg/cache.Cache swept once; non-trivial = some but not all entries expired, or more than 32. Locks: a Lock/TryLock/Unlock script on one real MutexMap, entries + reference counts + goroutine states after every call; non-trivial = some call finds its key taken. MidRace: exchanges with message-ID continuations on one real connection, housekeeping ticks, one of them interrupted between Range's fetch and the callback with exchanges ending/starting there; non-trivial = contains an interrupted tick."
 	rng := NewRng(a.seed)
 	add := func(le int, ops []string, bucket string) {
 		coq, ok, bad := runC13History(le, ops)
